@@ -25,6 +25,60 @@ CHECKS = {
         text="BFS and DFS diagrams are compared node by node, edge by edge and motif by motif with the reference hierarchy of percolated trap spaces; all 256 two-variable networks exhaustively plus thousands of generated ones.",
         ref="7 C02",
     ),
+    "C03": dict(
+        cat="exploration",
+        tech="runtime monitoring: reference-model oracle (inclusion-minimal trap spaces by enumeration of 3^n subspaces) over every strategy/option combination, early stops completed by skipping, and resumed partial diagrams",
+        text="minimal_trap_spaces()/node_is_minimal after every complete strategy and option combination, after size-limited runs completed by skip_remaining/skip_to_minimal, and after BFS/DFS/minimal-space/attractor-seed resumed from random plain prefixes, compared with the enumerated minimal trap spaces.",
+        ref="7 C03",
+    ),
+    "C04": dict(
+        cat="exploration",
+        tech="runtime monitoring: invariant checked after every call of random plain-expansion histories against a reference succession diagram, plus write-event tracing of node dictionaries",
+        text="After every call of thousands of random histories of plain expansion calls each node is compared with the reference diagram (expanded => exact successors and motifs, unexpanded => none, no duplicates); then full expansion is compared with a fresh diagram.",
+        ref="7 C04",
+    ),
+    "C05": dict(
+        cat="exploration",
+        tech="runtime monitoring: reference-model oracle over seeds of skip-completed diagrams under 6 query orders; wrapper on the reduced-STG solver observes the real pruning (avoid lists) to classify losses by mechanism",
+        text="Early-stopped diagrams completed with skip nodes are queried for seeds over all nodes in six orders on fresh copies; every reference attractor must be reported (exactly once without motif-avoidant attractors), every seed must be sound; the avoid lists actually passed to the solver are explained against the documented pruning rule.",
+        ref="7 C05",
+    ),
+    "C08": dict(
+        cat="exploration",
+        tech="runtime monitoring: reference-model oracle on node_attractor_candidates under a sweep of option pairs and configuration values; solver wrapper labels the branch taken",
+        text="Candidates of every node of unexpanded, partial, full and skip-completed diagrams under all option pairs and numeric configuration extremes must be full states of the node covering every reference attractor outside the successors, or the call must raise the documented limit error.",
+        ref="7 C08",
+    ),
+    "C09": dict(
+        cat="exploration",
+        tech="runtime monitoring: executable reference model of the solver's contract (enumeration of all subspaces of the argument's own dynamics) in a direct argument sweep and as icontract post-condition on every ambient solver call",
+        text="trappist and compute_fixed_point_reduced_STG results are compared with the enumerated expected sets over problem x time direction x ensure x avoid x source list x limit x argument kind (network, net, restricted net); the same oracle runs as a contract inside random expansion/attractor histories.",
+        ref="7 C09",
+    ),
+    "C10": dict(
+        cat="exploration",
+        tech="runtime monitoring: reference Petri-net decoder vs truth tables over the whole state space (small nets), per-update-function bitset comparison over the support (all repository models), contracts on the three functions during histories",
+        text="Encoding, restriction (also chained and through the cached-parent path) and network percolation to trap spaces are compared with the original dynamics on every state for small networks and per update function for the 5-321 variable models.",
+        ref="7 C10",
+    ),
+    "C11": dict(
+        cat="exploration",
+        tech="runtime monitoring: reference least-fixed-point propagation vs percolate_space/strict/conflicts/LDOI/single drivers; exhaustive on all 2-variable networks x 9 subspaces; contract on every ambient percolate_space call",
+        text="Percolation results on empty, trap, non-trap, conflicting and full-state spaces are compared with the reference least fixed point (given values kept, nothing else fixed), idempotence and trap-closure are asserted, and the strict variant, LDOI tables, single drivers and conflicts are compared with their reference definitions.",
+        ref="7 C11",
+    ),
+    "C12": dict(
+        cat="exploration",
+        tech="runtime monitoring: state-by-state comparison of VertexSets with reference terminal SCCs under four request orders; differential check default method vs symbolic fallback (direct and via candidate-limit 1)",
+        text="node_attractor_sets on every node of full and partial diagrams under four request orders (incl. after reclaim) must equal the reference attractor of the corresponding seed over all variables; the fallback must produce the same set of attractors as the default method and the reference.",
+        ref="7 C12",
+    ),
+    "C14": dict(
+        cat="exploration",
+        tech="runtime monitoring: after-every-call oracle over cached candidates/seeds/sets vs current successors + write-event log of node dictionaries (expanded False->True without cache writes)",
+        text="Random histories mix attractor queries on stubs with every operation that can give a node successors, reclaim and pickling; after every call all cached answers are judged against the reference attractors and the node's current successors, and the write log is checked for caches that survived a node gaining successors.",
+        ref="7 C14",
+    ),
     "C13": dict(
         cat="exploration",
         tech="runtime monitoring: sys.monitoring back-edge work meter with budget + while-loop frame-fingerprint no-progress detector on random call histories",
